@@ -11,5 +11,7 @@ CONSTANTS
   DirectCalls = FALSE
   MaxMsgLen = 3
   AsyncApply = FALSE
+  MaxPerRequest = 99
+  RecursiveRLock = FALSE
 INVARIANTS TypeOK InSync SetTracksDeps NoDeadlock
 CHECK_DEADLOCK FALSE
